@@ -154,13 +154,19 @@ def has_duplicate_names(node):
     return False
 
 
-def classify(node, raised=True):
-    """Known-finding input class of a failing input.  An input may belong to both classes: an exception points at the
-    unreadable schema, a silently wrong schema at the collapsed names."""
-    classes = [FINDING_UNNAMED if has_unnamed_output(node) else None, FINDING_DUPNAME if has_duplicate_names(node) else None]
-    if not raised:
-        classes.reverse()
-    return next((c for c in classes if c), None)
+def classify(node, kind, asis=True):
+    """Known-finding input class of a failing input, per kind of failure (None: unknown -> VIOLATION):
+    schema_raised / raised - reading .schema or a builder call raised something else than GrammarError: the unreadable
+        schema of un-aliased outputs;  schema_mismatch - a readable but wrong schema: collapsed duplicate names;
+    set_verdict - a set operation decided wrongly: it compares the (collapsed) schemas of its operands;
+    verdict - any other wrong accept / reject decision: never a known finding."""
+    if kind in ('schema_raised', 'raised'):
+        return FINDING_UNNAMED if has_unnamed_output(node) else None
+    if kind == 'schema_mismatch':  # asis: the observed schema is exactly what the as-is model (DslAst Collapse) predicts
+        return FINDING_DUPNAME if has_duplicate_names(node) and asis else None
+    if kind == 'set_verdict':
+        return FINDING_DUPNAME if has_duplicate_names(node) else None
+    return None
 
 
 def schema_matches(expected, got):
@@ -278,8 +284,8 @@ def _replay_lines(lines):
     samples = []
     kept = collections.Counter()
 
-    def fail(what, rep, node, raised=True):
-        finding = classify(node, raised)
+    def fail(what, rep, node, kind, asis=True):
+        finding = classify(node, kind, asis)
         kept[finding] += 1
         fails.append((what, rep if kept[finding] <= 3 else None, finding))
 
@@ -300,14 +306,14 @@ def _replay_lines(lines):
         got = g.project(obj)
         if g.canon(got) != g.canon(ast):
             fail(f'statement built by calls {e["h"]} is not the statement the builder rules give',
-                 dict(base, expected=ast, observed=got), ast)
+                 dict(base, expected=ast, observed=got), ast, 'verdict')
             continue
         unnamed = has_unnamed_output(ast)
         schema, sres = read_schema(obj, unnamed)
         if sres != 'ok' or not schema_matches(e['sch'], schema):
             fail(f'.schema of {obj!r} is {schema if sres == "ok" else sres}, expected {_fmt(e["sch"])}',
                  dict(base, call=None, expected_schema=e['sch'], observed_schema=schema if sres == 'ok' else sres), ast,
-                 sres != 'ok')
+                 'schema_mismatch' if sres == 'ok' else 'schema_raised', sres == 'ok' and schema_matches(e['asis'], schema))
         else:
             stats['schemas'] += 1
         # every call of the alphabet
@@ -331,7 +337,8 @@ def _replay_lines(lines):
                 if res != 'grammar':
                     fail(f'{c["m"]} call {ci} on {obj!r} breaks {exp} but ' +
                          ('was accepted' if res == 'ok' else f'raised {res[6:]} instead of GrammarError'),
-                         dict(base, call=ci, expected='GrammarError', rules=exp, observed=res), cand_ast, res != 'ok')
+                         dict(base, call=ci, expected='GrammarError', rules=exp, observed=res), cand_ast,
+                         'raised' if res != 'ok' else 'set_verdict' if c['m'] == 'set' else 'verdict')
                 continue
             nxt = next_key(key, exp)
             nast, ncanon = _expanded(nxt, al)
@@ -339,12 +346,13 @@ def _replay_lines(lines):
             if res != 'ok':
                 fail(f'{c["m"]} call {ci} on {obj!r} conforms to the grammar but raised ' +
                      ('GrammarError' if res == 'grammar' else res[6:]),
-                     dict(base, call=ci, expected='ok', observed=res), nast, res != 'grammar')
+                     dict(base, call=ci, expected='ok', observed=res), nast,
+                     'raised' if res != 'grammar' else 'set_verdict' if c['m'] == 'set' else 'verdict')
                 continue
             got = g.project(succ)
             if g.canon(got) != ncanon:
                 fail(f'{c["m"]} call {ci} on {obj!r} returned {succ!r}, not the statement the documented update gives',
-                     dict(base, call=ci, expected=nast, observed=got), nast)
+                     dict(base, call=ci, expected=nast, observed=got), nast, 'verdict')
                 continue
             if len(samples) < 2 and len(e['h']) >= 2:
                 samples.append({'calls': [al['calls'][i - 1] for i in e['h']] + [c], 'statement': repr(succ)})
@@ -534,21 +542,23 @@ def trace_validate(chk, items, procs, label):
     by_rule = collections.Counter()
     singles = 0
     for i, ((label_, node), o) in enumerate(zip(items, obs)):
-        wf, verdict_ok, schema_ok, broken = verdicts[i]
+        wf, verdict_ok, schema_ok, broken, asis = verdicts[i]
         by_rule['+'.join(sorted(broken)) or 'conforming'] += 1
         singles += len(broken) == 1
         if not o['roundtrip']:
             chk.fail('statement read back from the built object differs from the statement that was built',
-                     {'kind': 'statement', 'ast': node}, classify(node))
+                     {'kind': 'statement', 'ast': node}, None)
         elif not verdict_ok:
             what = (f'statement breaking {broken} was ' + ('accepted' if o['res'] == 'ok' else f'answered {o["res"]}')
                     if broken else f'conforming statement raised {o["res"]}')
             chk.fail(f'{what}: {_show(node)}', {'kind': 'statement', 'ast': node, 'observed': o['res'], 'broken': broken},
-                     classify(node, o['res'].startswith('error')))
+                     classify(node, 'raised' if o['res'].startswith('error') else
+                              'set_verdict' if any(n.get('t') == 'set' for _, n in g.walk(node)) else 'verdict'))
         elif not schema_ok:
             chk.fail(f'.schema {o["schema"] if o["schema_res"] == "ok" else o["schema_res"]} does not list the outputs of '
                      f'{_show(node)}', {'kind': 'statement', 'ast': node, 'observed_schema': o['schema'],
-                                        'schema_res': o['schema_res']}, classify(node, o['schema_res'] != 'ok'))
+                                        'schema_res': o['schema_res']},
+                     classify(node, 'schema_mismatch' if o['schema_res'] == 'ok' else 'schema_raised', bool(asis)))
         else:
             chk.validated()
             if label_ != 'conforming' and i % 997 == 0:
@@ -599,7 +609,8 @@ def main(chk):
     al = alphabet('core')
     _init_worker(al)
     line = {'h': [], 'k': ['start', 1, '', [], 0, 0, [], 0, [], 0, 0], 'ast': g.NIL_S,
-            'sch': [{'name': n, 'kind': k} for n, k in g.CATALOG['A']], 'v': [-1] * len(al['calls'])}
+            'sch': [{'name': n, 'kind': k} for n, k in g.CATALOG['A']],
+            'asis': [{'name': n, 'kind': k} for n, k in g.CATALOG['A']], 'v': [-1] * len(al['calls'])}
     bad = dict(line, v=[{'b': ['subset']}] + line['v'][1:])          # select(A.i) on A is fine: expecting a refusal must fail
     bad2 = dict(line, sch=line['sch'][::-1])
     chk.selftest('replay_notices_flipped_outcome', len(_replay_lines([bad])[1]) == 1 and not _replay_lines([line])[1])
